@@ -1,24 +1,57 @@
 //! Direction A for CacheTable: every history TLC printed from MCCache
 //! (`"CREC ..."`: table size, the sequence of add / replace_if calls and the
 //! expected answer of every get) is executed on the real table with real
-//! 64-bit hashes.  Model hash <<tag, idx>> maps to tagbits(tag) * size + idx
-//! where tag 0 -> 0, 1 -> 1, 2 -> all remaining high bits set.
+//! 64-bit hashes.  Model hash <<tag, idx>> (idx = the slot, tag = which of
+//! the slot's hashes) is mapped to a real hash by OBSERVATION: candidate
+//! hashes are sorted into slot classes by watching evictions on a scratch
+//! table (SlotProber); model slot 0 is the class of hash 0 and <<0, 0>> is
+//! hash 0 itself; every model slot gets three hashes of one class, chosen so
+//! that they differ in the low bits only, in the upper half of the word only
+//! and in every high bit where the class offers such members.
 
 use chess::CacheTable;
 use chess_verif_harness::*;
 use serde_json::{json, Value};
 use std::io::BufRead;
 
-fn real_hash(tag: i64, idx: i64, size: u64) -> u64 {
+/// concrete hashes for the model's <<tag, idx>> pairs of one table size: map[idx][tag]
+fn hash_map(size: u64, ntags: usize) -> Result<Vec<Vec<u64>>, String> {
     let shift = size.trailing_zeros();
-    // tag 0 -> hash bits all zero above the index, tag 1 -> only bit 32 set (differs from tag 0 in the upper half
-    // of the word only), tag 2 -> every bit above the index set
-    let base: u64 = match tag {
-        0 => 0,
-        1 => 1u64 << 32,
-        _ => (u64::MAX >> shift) << shift,
-    };
-    base | idx as u64
+    let mut cands: Vec<u64> = vec![0];
+    for idx in 0..size {
+        // shaped for the usual slot functions; what they really share is observed below
+        cands.push(idx);
+        cands.push((1u64 << 32) | idx);
+        cands.push(((u64::MAX >> shift) << shift) | idx);
+        for k in 1..6u64 {
+            cands.push(idx + k * size);
+            cands.push(idx ^ (k << 32) ^ (k * size));
+        }
+    }
+    let mut x = 0x9E37_79B9_7F4A_7C15u64;
+    for _ in 0..(64 * size) {
+        x = x.wrapping_mul(6364136223846793005).wrapping_add(1442695040888963407);
+        cands.push(x);
+    }
+    let mut seen = std::collections::HashSet::new();
+    cands.retain(|h| seen.insert(*h));
+    let mut pr = SlotProber::new(size as usize);
+    let mut classes: Vec<Vec<u64>> = vec![];
+    for h in cands {
+        let c = pr.class_of(h);
+        if c >= classes.len() {
+            classes.resize(c + 1, vec![]);
+        }
+        classes[c].push(h);
+    }
+    if classes.len() as u64 > size {
+        return Err(format!("{} slot classes observed in a table of {} slots", classes.len(), size));
+    }
+    let usable: Vec<Vec<u64>> = classes.into_iter().filter(|c| c.len() >= ntags).map(|c| c[..ntags].to_vec()).collect();
+    if (usable.len() as u64) < size || usable[0][0] != 0 {
+        return Err(format!("could not find {} hashes for each of {} slots (found {} classes)", ntags, size, usable.len()));
+    }
+    Ok(usable[..size as usize].to_vec())
 }
 
 fn pred(k: &str, x: i64) -> Box<dyn Fn(i64) -> bool> {
@@ -44,6 +77,7 @@ fn main() {
     }
     std::panic::set_hook(Box::new(|_| {}));
     let mut rep = Report::new();
+    let mut maps: std::collections::HashMap<u64, Vec<Vec<u64>>> = std::collections::HashMap::new();
     for line in std::io::stdin().lock().lines() {
         let line = match line {
             Ok(l) => l,
@@ -56,6 +90,28 @@ fn main() {
         let size = rec["size"].as_u64().unwrap();
         let log = rec["log"].as_array().unwrap();
         rep.count("histories", 1);
+        if !maps.contains_key(&size) {
+            match std::panic::catch_unwind(|| hash_map(size, 3)) {
+                Ok(Ok(m)) => {
+                    rep.sample("hashes_per_slot", json!({"size": size, "map": m.iter().map(|c| c.iter().map(|h| h.to_string()).collect::<Vec<_>>()).collect::<Vec<_>>()}), 3);
+                    maps.insert(size, m);
+                }
+                Ok(Err(e)) => {
+                    if e.contains("slot classes observed") {
+                        rep.violation("C19", "more_slot_classes_than_slots", json!({"size": size, "what": e}));
+                        continue;
+                    }
+                    eprintln!("{}", e);
+                    std::process::exit(2);
+                }
+                Err(_) => {
+                    rep.violation("C19", "panic_in_cache_table", json!({"size": size, "while": "observing which hashes share a slot"}));
+                    continue;
+                }
+            }
+        }
+        let hm = maps.get(&size).unwrap().clone();
+        let real_hash = move |tag: i64, idx: i64, _size: u64| -> u64 { hm[idx as usize][tag as usize] };
         let r = std::panic::catch_unwind(|| {
             let mut rr = Report::new();
             let mut t: CacheTable<i64> = CacheTable::new(size as usize, 0);
